@@ -3,6 +3,7 @@ import Driver.C06
 import Selene.Lua.Read
 import Selene.Std.Prog
 import Selene.Scope.RefAt
+import Selene.Scope.Coherent
 import Selene.Scope.Spec
 namespace Driver.StdProg
 open Selene Selene.Lua Selene.Std Selene.Std.Prog Selene.Scope
@@ -52,6 +53,8 @@ def handleProg : Handler := fun input impl =>
         let md := sortStrs (mdiags.map showPDiag)
         let id := sortStrs (idiags.filterMap implKey)
         let coherent := σ.firstRefCoherent
+        -- the hypothesis of `C07_std_inside_tree`, on the tree itself: the reference tokens are pairwise distinct
+        let distinct := decide (Core.refTokens chunk.block).Nodup
         -- three-way: the implementation's diagnostics judged by Lua's scoping rules directly — a diagnostic whose
         -- range starts at an identifier that the resolver binds to a local declaration is a use inside that binding's scope
         let spec := Spec.resolve chunk.block
@@ -69,10 +72,10 @@ def handleProg : Handler := fun input impl =>
         let tags := (mdiags.map fun g => kindTag g.kind).eraseDups ++
           (if mdiags.isEmpty then ["silent"] else []) ++
           (if spec.occs.any (fun o => o.binding.isSome && (lib.globals.any fun (k, _) => (k.splitOn ".").head? == some o.name)) then ["rebound-library-name"] else []) ++
-          (if coherent then [] else ["first-ref-incoherent"])
-        { agree := md == id && coherent,
+          (if coherent then [] else ["first-ref-incoherent"]) ++ (if distinct then [] else ["reference-tokens-not-distinct"])
+        { agree := md == id && coherent && distinct,
           spec := inside.head?,
-          model := if md == id then (if coherent then "" else "hypothesis firstRefCoherent of C07_std_inside does not hold on this program")
+          model := if md == id then (if !coherent then "hypothesis firstRefCoherent of C07_std_inside does not hold on this program" else if !distinct then "hypothesis `reference tokens pairwise distinct` of C07_std_inside_tree does not hold on this program" else "")
                    else s!"model {md.filter fun x => !id.contains x} impl {id.filter fun x => !md.contains x}",
           tags }
       | _ => .malformed "stdprog impl"
